@@ -579,7 +579,7 @@ pub fn check_step(cx: &StepCtx) -> Vec<Violation> {
                 out.push(v("C04", if d6 { "bsei-rate-fell:zero-backed-pool" } else { "bsei-rate-fell" }, format!("{}: bSei rate {} → {} (bonded {}→{}, claims {}→{})", kind, a[0], b[0], a[2], b[2], pre.supply_b + pre.batch.1, post.supply_b + post.batch.1)));
             }
             if post.supply_s + post.batch.2 > 0 && pre.supply_s + pre.batch.2 > 0 && b[1] < a[1] {
-                out.push(v("C04", "stsei-rate-fell", format!("{}: stSei rate {} → {} (bonded {}→{}, claims {}→{})", kind, a[1], b[1], a[3], b[3], pre.supply_s + pre.batch.2, post.supply_s + post.batch.2)));
+                out.push(v("C04", if a[3] == 0 { "stsei-rate-fell:zero-backed-pool" } else { "stsei-rate-fell" }, format!("{}: stSei rate {} → {} (bonded {}→{}, claims {}→{})", kind, a[1], b[1], a[3], b[3], pre.supply_s + pre.batch.2, post.supply_s + post.batch.2)));
             }
         }
     }
